@@ -97,7 +97,11 @@ IDENT = {
     "Adexp": ("C03", "Ad(exp(a)) == sum ad(a)^k / k!"),
     "drexp": ("C04", "dr_exp(a) == sum (-1)^k ad(a)^k / (k+1)!"),
     "drinv": ("C04", "dr_expinv(a) dr_exp(a) == I"),
+    "unitnorm": ("C15", "|rotation coefficients of exp(a)|^2 == 1"),
 }
+
+# where the unit complex number / unit quaternion sits in coeffs()
+ROT_COEFFS = {"SO2d": (0, 2), "SO3d": (0, 4), "SE2d": (2, 2), "SE3d": (3, 4)}
 
 
 def witnesses(gs, names):
@@ -124,6 +128,12 @@ def witnesses(gs, names):
             elif nm == "drinv":
                 body = om("m1", "GT::Dof", "GT::Dof") + om("m2", "GT::Dof", "GT::Dof") + "  m1 = GT::dr_expinv(a);\n  m2 = GT::dr_exp(a);\n"
                 shp = ((g.dof, g.dof), (g.dof, g.dof))
+            elif nm == "unitnorm":
+                if g.key not in ROT_COEFFS:
+                    continue
+                o, n = ROT_COEFFS[g.key]
+                body = om("m1", "1", "1") + om("m2", "1", "1") + "  m1(0, 0) = GT::exp(a).coeffs().template segment<%d>(%d).squaredNorm();\n  m2(0, 0) = 1;\n" % (n, o)
+                shp = ((1, 1), (1, 1))
             elif nm in ("d2rminus", "sqnorm"):
                 if not has_hessian(g) or g.dof >= 8:
                     continue          # for Dof >= 8 Eigen evaluates the block products with its run-time gemm kernel (outside the series domain)
@@ -203,7 +213,7 @@ def expected(nm, M1, M2, order):
         return M1, rays.power_sum(M2, lambda k: Fraction(1, factorial(k)), order)
     if nm == "drexp":
         return M1, rays.power_sum(M2, lambda k: Fraction((-1) ** k, factorial(k + 1)), order)
-    if nm in ("logexp", "d2rminus", "sqnorm"):
+    if nm in ("logexp", "d2rminus", "sqnorm", "unitnorm"):
         return M1, M2
     if nm == "drinv":
         return rays.mat_mul(M1, M2), rays.mat_id(len(M1))
@@ -213,13 +223,13 @@ def expected(nm, M1, M2, order):
 TSCALE = 10 ** 7
 
 
-def run(rep, tier, prop, names, tol, full_order=8, variants=1):
-    rule = "T." + prop
+def run(rep, tier, prop, names, tol, full_order=8, variants=1, rule=None, minimum=None):
+    rule = rule or ("T." + prop)
     gs = [g for g in groups.catalogue("quick")]
     if tier == "thorough":
         gs += [g for g in groups.catalogue("thorough") if g.key in ("SE_1_3d", "B_SE3d_SO2d_V3d_C1d", "B_nested")]
         variants = max(variants, 2)
-    rep.rule(rule, "closed-form path reproduces the defining series along rational rays to order %d; on every other path (polynomial branch of a small-angle switch) the first differing term is below %g at the largest t that selects it" % (full_order, tol), minimum=len(names) * 4)
+    rep.rule(rule, "closed-form path reproduces the defining series along rational rays to order %d; on every other path (polynomial branch of a small-angle switch) the first differing term is below %g at the largest t that selects it" % (full_order, tol), minimum=minimum if minimum is not None else len(names) * 4)
     W = witnesses(gs, names)
     facts = W.build()
     rep.cmds.append(fe.clangxx() + " " + " ".join(fe.IR_FLAGS))
